@@ -109,6 +109,13 @@ func (c *Core) onEnter(s *Sim, e *simrt.Event) {
 		return
 	}
 	cl := c.client(q.Client)
+	if q.Injected {
+		// judged at the end: only an upgrade that succeeded makes this a violation
+		// (after a failed handshake the connection is still a plain one)
+		q.entered++
+		q.enterStep, q.route, q.reqID = e.Step, int(e.A), e.B
+		return
+	}
 	q.entered++
 	if q.entered == 1 {
 		q.enterStep, q.gconn, q.route, q.reqID = e.Step, e.Conn, int(e.A), e.B
@@ -603,6 +610,24 @@ func (c *Core) Finish(s *Sim) {
 	if judged > 0 {
 		s.Probe("C08-connection-endings-judged")
 	}
+	// goroutines spawned by a connection's goroutine that are still alive after it has returned
+	live := map[string]bool{}
+	for _, l := range s.W.Live(nil) {
+		live[l] = true
+	}
+	for l := range live {
+		parts := strings.Split(l, ">")
+		if len(parts) < 3 || parts[0] != "run" {
+			continue
+		}
+		if anc := parts[0] + ">" + parts[1]; !live[anc] {
+			site := parts[len(parts)-1]
+			if k := strings.Index(site, "#"); k > 0 {
+				site = site[:k]
+			}
+			s.Violate("C08", "no-leak", "goroutine-outlives-its-connection spawned-at="+site, fmt.Sprintf("%s is still alive at final quiescence although the connection goroutine %s that spawned it has returned", l, anc))
+		}
+	}
 	// goroutines left parked at final quiescence (deadlocked on a lock or never released)
 	s.parkedBuf = s.W.Snapshot(s.parkedBuf)
 	for _, p := range s.parkedBuf {
@@ -713,6 +738,14 @@ func (c *Core) finishClient(s *Sim, cl *Client) {
 	}
 	if cl.Flavour == 2 {
 		c.finishStartTLS(s, cl)
+	}
+	if cl.Injecting {
+		s.Probe("C13-plaintext-injected-behind-starttls")
+		for _, q := range c.reqs {
+			if q.Injected && q.Client == cl.Idx && q.entered > 0 && cl.srvTLSOK {
+				s.Violate("C13", "injection", "plaintext-behind-starttls-was-served", fmt.Sprintf("m=%d (%s) was sent in the clear in the same segment as the StartTLS request of %s; the upgrade succeeded and the request was served (route %d, Request.ID %d)", q.Rec.MsgID, q.Rec.Op, cl.name(), q.route, q.reqID))
+			}
+		}
 	}
 	if cl.Flavour != 0 && (c.stopCalls > 0 || cfg.Lean || cfg.ReadTimeout != 0 || cfg.WriteTimeout != 0) {
 		return // a task client's byte stream is only judged on undisturbed runs
